@@ -76,6 +76,7 @@ fn gen_case(rng: &mut Rng, history: bool) -> Sx {
             ops.push(match rng.below(8) {
                 0 => { let i = *rng.pick(&live); let v = if rng.chance(1, 3) && !det { wrong(i, rng) } else { good(i) }; Sx::l(vec![Sx::n(1), Sx::s(FIELDS[i]), v]) }
                 1 | 2 => Sx::l(vec![Sx::n(2), Sx::s(FIELDS[*rng.pick(&live)])]),
+                3 if rng.chance(1, 2) => Sx::l(vec![Sx::n(3)]),       // an aggregate query that fails half-way
                 _ => Sx::l(vec![Sx::n(0), goal(rng)]),
             });
         }
@@ -92,6 +93,16 @@ fn gen_case(rng: &mut Rng, history: bool) -> Sx {
                 ops.push(Sx::l(vec![Sx::n(1), Sx::s(FIELDS[i]), v_bool(a2)])); ops.push(Sx::l(vec![Sx::n(1), Sx::s(FIELDS[j]), v_bool(b2)]));
                 ops.push(Sx::l(vec![Sx::n(0), g]));
             }
+        }
+        // sibling queries: the same field and the same word operator (contains / starts_with / ends_with) with different
+        // literals, the failing one first - two different queries that any normalisation of the query text must keep apart
+        if nf >= 6 && rng.chance(1, 2) {
+            let opc = *rng.pick(&[6u64, 8, 9]);
+            let (yes, no) = match opc { 6 => ("ol", "ilv"), 8 => ("go", "si"), _ => ("ld", "er") };
+            if rng.chance(1, 2) { ops.push(Sx::l(vec![Sx::n(1), Sx::s(FIELDS[5]), v_str("gold")])); }
+            ops.push(Sx::l(vec![Sx::n(0), Sx::l(vec![Sx::s(FIELDS[5]), Sx::n(opc), v_str(no)])]));
+            ops.push(Sx::l(vec![Sx::n(0), Sx::l(vec![Sx::s(FIELDS[5]), Sx::n(opc), v_str(yes)])]));
+            if rng.chance(1, 2) { ops.push(Sx::l(vec![Sx::n(0), Sx::l(vec![Sx::s(FIELDS[5]), Sx::n(opc), v_str(no)])])); }
         }
         // the same query twice with a change of the facts in between is the interesting shape: make it likely
         if rng.chance(1, 2) { let g = goal(rng); let i = *rng.pick(&live);
@@ -156,7 +167,8 @@ pub fn gen_c11(tier: Tier, rng: &mut Rng) -> Vec<Sx> { let n = if tier == Tier::
 
 fn op_of(o: u64) -> (Operator, &'static str) {
     match o { 0 => (Operator::Equal, "=="), 1 => (Operator::NotEqual, "!="), 2 => (Operator::GreaterThan, ">"), 3 => (Operator::GreaterThanOrEqual, ">="),
-              4 => (Operator::LessThan, "<"), _ => (Operator::LessThanOrEqual, "<=") }
+              4 => (Operator::LessThan, "<"), 5 => (Operator::LessThanOrEqual, "<="),
+              6 => (Operator::Contains, "contains"), 8 => (Operator::StartsWith, "starts_with"), _ => (Operator::EndsWith, "ends_with") }
 }
 fn cond_of(c: &Sx) -> ConditionGroup {
     match c.at(0).as_u() {
@@ -167,7 +179,7 @@ fn cond_of(c: &Sx) -> ConditionGroup {
 }
 fn lit_text(v: &Sx) -> String { match v.at(0).as_u() { 0 => format!("{}", v.at(1).as_i()), 2 => format!("\"{}\"", v.at(1).as_s()), _ => if v.at(1).as_b() { "true".into() } else { "false".into() } } }
 
-pub fn run(case: &Sx) -> (Sx, String) {
+fn mk_engine(case: &Sx) -> BackwardEngine {
     let kb = KnowledgeBase::new("c09");
     for (i, r) in case.at(4).as_l().iter().enumerate() {
         let acts = r.at(1).as_l().iter().map(|kv| ActionType::Set { field: kv.at(0).as_s(), value: c01::val_of_sx(kv.at(1)) }).collect();
@@ -179,7 +191,11 @@ pub fn run(case: &Sx) -> (Sx, String) {
         enable_memoization: true,
         max_solutions: case.at(2).as_us(),
     };
-    let mut engine = BackwardEngine::with_config(kb, config);
+    BackwardEngine::with_config(kb, config)
+}
+
+pub fn run(case: &Sx) -> (Sx, String) {
+    let mut engine = mk_engine(case);
     let mut facts = Facts::new();
     for kv in case.at(5).as_l() { facts.set(&kv.at(0).as_s(), c01::val_of_sx(kv.at(1))); }
     let (mut verdicts, mut details) = (vec![], vec![]);
@@ -189,13 +205,24 @@ pub fn run(case: &Sx) -> (Sx, String) {
             0 => {
                 let g = op.at(1);
                 let q = format!("{} {} {}", g.at(0).as_s(), op_of(g.at(1).as_u()).1, lit_text(g.at(2)));
-                let before = c01::sx_of_facts(&facts.get_all_facts());
+                let snapshot = facts.get_all_facts();
+                let before = c01::sx_of_facts(&snapshot);
                 let res = engine.query(&q, &mut facts).expect("query");
                 let after = c01::sx_of_facts(&facts.get_all_facts());
                 nq += 1; if res.provable { nyes += 1; }
+                // the same query on a freshly built engine and a copy of the facts gives the same verdict, and the engine with a
+                // history still has the configuration it was built with (the number of solutions is NOT compared: even two fresh
+                // engines disagree on it, it depends on the iteration order of the candidate hash set; for the same reason the
+                // verdict of the breadth-first strategy on rule sets with conflicting conclusions is not compared)
+                let mut fresh_engine = mk_engine(case);
+                let mut fresh_facts = Facts::new();
+                for (k, v) in snapshot.iter() { fresh_facts.set(k, v.clone()); }
+                let fr = fresh_engine.query(&q, &mut fresh_facts).expect("fresh query");
+                let same = (case.at(0).as_u() == 1 || fr.provable == res.provable) && engine.config().max_solutions == case.at(2).as_us() && engine.config().max_depth == case.at(1).as_us();
                 verdicts.push(Sx::l(vec![Sx::b(res.provable)]));
-                details.push(Sx::l(vec![Sx::b(res.provable), before, after]));
+                details.push(Sx::l(vec![Sx::b(res.provable), before, after, Sx::b(same)]));
             }
+            3 => { let _ = engine.query_aggregate("count(?x) WHERE (unclosed", &mut facts); verdicts.push(Sx::l(vec![])); details.push(Sx::l(vec![])); }
             1 => { facts.set(&op.at(1).as_s(), c01::val_of_sx(op.at(2))); verdicts.push(Sx::l(vec![])); details.push(Sx::l(vec![])); }
             _ => { facts.remove(&op.at(1).as_s()); verdicts.push(Sx::l(vec![])); details.push(Sx::l(vec![])); }
         }
